@@ -10,7 +10,8 @@ CONSTANTS MaxSteps,
           DEV_NoInvalidateOnPredictionTR,   \* TrajectoryPrediction.translate_rotate keeps the cached occupancy set
           DEV_NoReindexOnNetworkTR,         \* LaneletNetwork.translate_rotate keeps the old spatial index
           DEV_NoInvalidateCycle,            \* TrafficLightCycle setters keep cycle_init_timesteps
-          DEV_MergeRebuildOnlyIfAll         \* add_lanelets_from_network rebuilds the index only if every lanelet was new
+          DEV_MergeRebuildOnlyIfAll,        \* add_lanelets_from_network rebuilds the index only if every lanelet was new
+          DEV_SetterSkipsSameObject         \* the trajectory setter keeps the occupancy cache when handed the object it already holds
 
 VARIABLES P, occC, idx, cinit, steps, act, ans, exp
 vars == <<P, occC, idx, cinit, steps, act, ans, exp>>
@@ -54,6 +55,10 @@ TR(lvl, m) ==
        /\ UNCHANGED cinit /\ Mut(A("tr", lvl, <<m.tx, m.ty, m.q>>))
 SetTraj(tr) == /\ P.ob.has = 1 /\ P' = [P EXCEPT !.ob.traj = tr] /\ occC' = NoOcc /\ UNCHANGED <<idx, cinit>>
                /\ Mut(A("set_trajectory", "", FlatPoses(tr)))
+(* the prediction's own Trajectory object is edited in place (Trajectory.translate_rotate) and handed back to the setter *)
+ReTraj(m) == /\ P.ob.has = 1 /\ P' = [P EXCEPT !.ob.traj = MovePoses(m, @)]
+             /\ occC' = (IF DEV_SetterSkipsSameObject THEN occC ELSE NoOcc) /\ UNCHANGED <<idx, cinit>>
+             /\ Mut(A("reassign_trajectory", "", <<m.tx, m.ty, m.q>>))
 SetPShape(s) == /\ P.ob.has = 1 /\ P' = [P EXCEPT !.ob.pshp = s] /\ occC' = NoOcc /\ UNCHANGED <<idx, cinit>>
                 /\ Mut(A("set_pshape", "", s))
 UpdPred(tr) == /\ P' = [P EXCEPT !.ob.has = IF tr = <<>> THEN 0 ELSE 1, !.ob.traj = tr, !.ob.pshp = P.ob.shp]
@@ -100,6 +105,7 @@ QLight(t) == LET c1 == IF cinit.ok = 0 THEN [ok |-> 1, cyc |-> P.lgt.cyc, off |-
 Next == /\ steps < MaxSteps
         /\ \/ \E lvl \in {"scenario", "obstacle", "prediction", "network"}, m \in Motions : TR(lvl, m)
            \/ \E tr \in Trajs : SetTraj(tr) \/ UpdPred(tr)
+           \/ \E m \in Motions : ReTraj(m)
            \/ UpdPred(<<>>) \/ SetPShape(<<1, 1>>)
            \/ \E maxh \in {1, 2} : UpdInit(<<3, 3, 1>>, maxh)
            \/ AddLan \/ \E i \in {1, 2} : RemLan(i)
